@@ -66,10 +66,11 @@ def generate(rng, tier):
         for i in range(rng.randint(1, 3)):
             dim = rng.choice([2, 3])
             dims.append(dim)
-            # (the constructors convert what they are given to Vec2 / Vec3: constructor values are vectors)
-            p = 'p' + vec(rng, dim)[1:] if rng.random() < 0.4 else '-'
-            r = (str(rng.choice(ROTS)) if dim == 2 else 'p' + vec(rng, 3)[1:]) if rng.random() < 0.5 else '-'
-            s = 'p' + vec(rng, dim)[1:] if rng.random() < 0.4 else '-'
+            # (the constructors rebuild vectors from the components they are given - Vec2(*position) -: a tuple
+            # or list given at construction reads back as the vector of its components)
+            p = vec(rng, dim) if rng.random() < 0.4 else '-'
+            r = (str(rng.choice(ROTS)) if dim == 2 else vec(rng, 3)) if rng.random() < 0.5 else '-'
+            s = vec(rng, dim) if rng.random() < 0.4 else '-'
             lines.append(f'transform {dim} {p} {r} {s}')
         for i in range(len(dims)):
             for f in FIELDS:
@@ -158,8 +159,10 @@ def oracle(lines, obs):
                 continue
             if dim == 2:
                 rot = str(int(rot) % 720)
-            ts.append({'dim': dim, 'position': t[2] if t[2] != '-' else z, 'rotation': rot,
-                       'scale': t[4] if t[4] != '-' else o, 'd': d})
+            as_vec = lambda v: 'p' + v[1:] if v[0] in 'tl' else v       # noqa
+            ts.append({'dim': dim, 'position': as_vec(t[2] if t[2] != '-' else z),
+                       'rotation': rot if dim == 2 else as_vec(rot),
+                       'scale': as_vec(t[4] if t[4] != '-' else o), 'd': d})
         elif t[0] == 'top':
             i = int(t[1])
             T = ts[i]
